@@ -276,3 +276,19 @@ lemma("redfield_td_herm", types=REL_TYPES,
       hyps=[("hRl", REL_FORM_CODE), ("hsym", K_SYMM)] + LEMMAS["redfield_herm"]["hyps"][1:],
       concl=LEMMAS["redfield_herm"]["concl"],
       proof=_TO_GENERIC + LEMMAS["redfield_herm"]["proof"])
+
+
+lemma("column_update_keeps_sum",
+      types={"N": "int", "b": "int", "F": "carr1", "F2": "carr1", "G": "arr1"},
+      hyps=[("hb", "0 <= b and b < N"),
+            ("hF", "forall(a, range(0, N), F2[a] == F[a] + G[a] - ite(a == b, Sum(x, range(0, N), G[x]), 0))")],
+      concl="Sum(a, range(0, N), F2[a]) == Sum(a, range(0, N), F[a])",
+      proof="""
+have hmem : b ∈ Finset.Ico (0:ℤ) N := Finset.mem_Ico.mpr ⟨hb.1, hb.2⟩
+have e : ∀ a ∈ Finset.Ico (0:ℤ) N, F2 a = F a + ((G a : ℝ) : ℂ) - (((if a = b then (∑ x ∈ Finset.Ico (0:ℤ) N, G x) else (0:ℝ)) : ℝ) : ℂ) := by
+  intro a ha
+  exact hF a (Finset.mem_Ico.mp ha).1 (Finset.mem_Ico.mp ha).2
+rw [Finset.sum_congr rfl e, Finset.sum_sub_distrib, Finset.sum_add_distrib, ← Complex.ofReal_sum, ← Complex.ofReal_sum,
+    Finset.sum_ite_eq' (Finset.Ico (0:ℤ) N) b]
+simp [hmem]
+""")
